@@ -69,7 +69,8 @@ EDITS = [
 
 def checks():
     man = json.load(open(os.path.join(VERIF, "MANIFEST.json")))
-    return [c["property_id"] for c in man["checks"]]
+    only = os.environ.get("BENIGN_CHECKS", "").split()
+    return [c["property_id"] for c in man["checks"] if not only or c["property_id"] in only]
 
 
 def run_one(args):
